@@ -4,7 +4,7 @@ NOT_BUILT = "check not built yet in this round (design in DESIGN.md section 3); 
 
 
 def fill(claim, na):
-    for p in ["C01", "C02", "C03", "C04",  "C10", "C12", "C13",
+    for p in ["C01", "C02", "C03", "C04",  "C10", "C13",
               "C15", "C16", "C18"]:
         na(p, NOT_BUILT)
     na("C05", "equality of decoded flux with the sector dump is a statement about decoding arbitrary bit-streams "
@@ -73,3 +73,13 @@ def fill(claim, na):
           "scan_for finds in the bits (sync constants, bit order).",
           "Trusts the CRC helpers' arithmetic (checked under C02) and clang's CFG.",
           "DESIGN.md 3/C06")
+    claim("C12",
+          "who-may-create census over the resolved AST (stream constructions, C and POSIX file-creating calls, "
+          "std::filesystem modifiers, open modes) against a confirmed table, cross-checked in the thorough tier with "
+          "the external-symbol census of the linked LLVM IR; interprocedural string taint from catalogue bytes to "
+          "created paths with a structural sanitiser recogniser",
+          "Decides for all catalogues and commands that only the confirmed sites can create files, that images are "
+          "opened read-only, and that catalogue bytes cannot put a '/' into a created path. Not decided: that the "
+          "destination is not itself the image.",
+          "Trusts the table of file-modifying library entry points and that a '/'-free relative name stays in its directory.",
+          "DESIGN.md 3/C12")
